@@ -174,7 +174,7 @@ def fail_class(r):
     return None
 
 
-def shrink(ctx, src, cls, rounds=6, max_cands=36):
+def shrink(ctx, src, cls, rounds=5, max_cands=30):
     import gen_progs
     pre = gen_progs.PRELUDE if src.startswith(gen_progs.PRELUDE) else None
     if pre is None:
@@ -278,10 +278,10 @@ def run(ctx):
                        {"id": res["id"], "error": res.get("error"), "tb": res.get("tb"), "program": p["src"]}, found_input=False)
             continue
         if cls is not None:
-            if cls in reported and n_shrunk >= 3:
+            if cls in reported and n_shrunk >= 2:
                 continue
             src = p["src"]
-            if n_shrunk < 3:
+            if n_shrunk < 2:
                 try:
                     src = shrink(ctx, src, cls)
                 except Exception as e:  # noqa: BLE001
